@@ -217,6 +217,23 @@ Theorem C01_pair_qos2_exactly_once_across_loss : forall gs gr,
 Proof. exact qos2_exactly_once_across_loss. Qed.
 Print Assumptions C01_pair_qos2_exactly_once_across_loss.
 
+(* ... and QoS 1 IS AT LEAST ONCE ACROSS TRANSPORT LOSS: with [accC] (every stored exchange has a packet in flight; a PUBLISH in
+   flight is, up to DUP, the stored entry of its exchange; a PUBACK in flight is for a message that has been notified; every
+   published QoS 1 message has been notified or is still stored) kept by every action, once the links have drained nothing is
+   stored any more and every QoS 1 message that was published has been notified *)
+Theorem C01_pair_qos1_at_least_once_across_loss : forall gs gr,
+  role_client_ok gs = true -> role_server_ok gr = true -> 2 + g_idw gs <= MQTT_PACKET_SIZE_NO_LIMIT ->
+  forall l s, invL gs gr s -> accC s -> Forall good_actL l ->
+  exists s1 s2, run_schedL gs gr s l = Some s1 /\ run_schedL gs gr s1 (drainL (measure s1)) = Some s2 /\
+                qsr s2 = [] /\ qrs s2 = [] /\ c_store (cs s2) = [] /\
+                (forall p, In p (published s1) -> k_type p = T_PUBLISH -> k_qos p = 1 -> In (undup p) (map undup (delivered s2))).
+Proof. exact qos1_at_least_once_across_loss. Qed.
+Print Assumptions C01_pair_qos1_at_least_once_across_loss.
+
+Theorem C01_pair_accounting1_after_handshake : forall c1 c2, c_store c1 = [] -> accC (mkSys c1 c2 [] [] [] []).
+Proof. exact accC_init. Qed.
+Print Assumptions C01_pair_accounting1_after_handshake.
+
 Theorem C01_pair_accounting_after_handshake : forall c1 c2, c_qos2 c2 = [] -> c_store c1 = [] -> accB (mkSys c1 c2 [] [] [] []).
 Proof. exact accB_init. Qed.
 Print Assumptions C01_pair_accounting_after_handshake.
@@ -238,14 +255,14 @@ Print Assumptions C01_recv_call_is_deliver.
 
 (* C01_partial: what is PROVED of the pair is everything above: single exchanges (both versions), any sequence of them
    (both versions), ANY schedule with several exchanges in flight on intact FIFO links with the exactly-once accounting
-   (v3.1.1, automatic responses), and the same WITH TRANSPORT LOSSES and session resumption: safety, progress, and QoS 2
-   exactly once.  NOT proved: QoS 1 "at least once" as an accounting statement across losses (safety and progress cover
-   it; the example below shows the duplicate), a loss in the middle of the resumption handshake or of a frame, manual
-   responses, several v5.0 exchanges in flight and topic aliases.  Those — with arbitrary fragmentation, loss points
-   (incl. mid-frame) and workloads from both sides — are decided on PAIRS OF REAL OBJECTS by the monitor mon_c01 (harness
-   conn_duo.rs wires a client and a server object by two byte queues): no protocol error on either side, termination,
-   exactly-once / at-least-once / at-most-once delivery with the original topic and payload, quiescence (all identifiers
-   released, stores empty, full vacancy); both objects are tied to the model by the full-digest correspondence chk_duo. *)
+   (v3.1.1, automatic responses), and the same WITH TRANSPORT LOSSES and session resumption: safety, progress, QoS 2 exactly
+   once and QoS 1 at least once.  NOT proved: a loss in the middle of the resumption handshake or of a frame, manual
+   responses, several v5.0 exchanges in flight and topic aliases, traffic in both directions at once.  Those — with arbitrary
+   fragmentation, loss points (incl. mid-frame) and workloads from both sides — are decided on PAIRS OF REAL OBJECTS by the
+   monitor mon_c01 (harness conn_duo.rs wires a client and a server object by two byte queues): no protocol error on
+   either side, termination, exactly-once / at-least-once / at-most-once delivery with the original topic and payload,
+   quiescence (all identifiers released, stores empty, full vacancy); both objects are tied to the model by the
+   full-digest correspondence chk_duo. *)
 
 (* the premises of the pair theorems are met by two endpoints after an ordinary handshake *)
 Example C01_pair_nonvacuous :
